@@ -92,6 +92,11 @@ def make_trees(r, tier):
         t = T.random_tree(r, size, names=names, p_branch=0.75)
         if any(len(k.kids) >= 2 for k in all_nodes(t)):
             trees.append(t)
+    # linkages written without an anomer, next to siblings that have one
+    for _ in range(8 if tier == "quick" else 80):
+        t = T.random_tree(r, r.randint(3, 7), names=["Glc", "Man", "Gal", "GlcNAc", "Fuc", "Xyl"], p_branch=0.8, anomers=["a", "b", "", ""])
+        if any(len(k.kids) >= 2 for k in all_nodes(t)):
+            trees.append(t)
     trees += shape_twins(r, 6 if tier == "quick" else 60)
     trees += bicyclic_roots(r, 6 if tier == "quick" else 40)
     # four substituents on a non-root and on the root residue, nested
